@@ -2301,6 +2301,25 @@ class KmipEngine(object):
         # objects in payload.
         self._logger.info("Processing operation: Locate")
 
+        # A negative number of items is not a page of the result. (Used as
+        # slice bounds, negative values would count from the end of it.)
+        for count in [payload.offset_items, payload.maximum_items]:
+            if count is not None and count < 0:
+                raise exceptions.InvalidField(
+                    "The offset items and maximum items cannot be negative."
+                )
+
+        # An attribute introduced after the version of the request is not
+        # accepted as a filter, as it is not accepted in a template.
+        for payload_attribute in (payload.attributes or []):
+            name = payload_attribute.attribute_name.value
+            policy = self._attribute_policy
+            if name in policy.get_all_attribute_names():
+                if not policy.is_attribute_supported(name):
+                    raise exceptions.InvalidField(
+                        "The {0} attribute is unsupported.".format(name)
+                    )
+
         managed_objects = self._list_objects_with_access_controls(
                                 enums.Operation.LOCATE)
 
